@@ -406,6 +406,7 @@ package ipfix
 //@ func GetCache
 //@   names cacheFile _ mem err b m i
 //@   exitassert [loadedOrEmpty] sameview(result, mem.Cache) || allEmpty(result)
+//@   exitassert [decodedOnly] Unmarshal_err != nil ==> allEmpty(result)   // a document the JSON decoder rejected (it may have filled the target half-way) is never used: only templates that were in the saved cache
 //@   opt nolock the cache being loaded or built is not shared before GetCache returns
 //@   opt replayprobe result.retrieve(300, net.IP{10, 0, 0, 1})
 //@   opt replayimports net
